@@ -1,0 +1,27 @@
+//go:build verif
+
+// Machine-checked contracts of the Audit contract (comment-only; read by the
+// verifier in /verif, ignored by every compiler because of the build tag).
+
+package audit
+
+/*@
+module authz
+props C03 C16 C20
+use common core
+dialect neovm
+// Authorisation table (C03): one line per exported method with the witness its documentation requires.
+// Checked by the zero-annotation sweep: on every normal exit that changed state (storage write,
+// notification, state-changing call) the formula holds; `safe` methods never change state.
+// alphabet() = 2/3+1 multisig of the chain committee, cmtaddr() = its majority multisig.
+
+witness Update [C03,C16] : W(cmtaddr())
+// audit results are accepted only with the witness of the key named in the result (membership in the Inner Ring: C20)
+witness Put [C03,C20]    : anyWitness
+safe Get [C03]
+safe List [C03]
+safe ListByEpoch [C03]
+safe ListByCID [C03]
+safe ListByNode [C03]
+safe Version [C03]
+@*/
